@@ -25,6 +25,7 @@ func init() {
 		Imports: []Import{
 			{From: "C07.e", Match: "ranges-strictly-increasing", As: "C03.g", Why: "a duplicate pending range can never be applied and freezes the subjective head every incoming header is verified against"},
 			{From: "C07.a", Match: "target-only-above-store", As: "C03.i", Why: "a pending range at or below the store head is never cleaned out, so the subjective head stops advancing and a stale header at a stored height is no longer refused as known"},
+			{From: "C02.b", As: "C03.j", Why: "the Syncer stores what its getter hands over as a verified range: VerifyRange has to verify every element against its own predecessor (and against nothing else) for 'verified range' to mean a chain"},
 			{From: "C01.a", As: "C03.h", Why: "the acceptance test of the syncer is header.Verify: a header at or below the subjective head must be refused as known before it can replace a stored one"},
 		},
 	})
@@ -353,6 +354,21 @@ func runC03(c *an.Ctx) {
 				}
 			}
 			c.Min("C03.c", "accepting exits of syncStore.Append at or above the head", nRet, 1)
+			// … and it moves only forward: it is written when an empty store is initialised, or with the
+			// last header of a batch at or above it that went through the adjacency loop — never with a
+			// batch below it (the backfill of a lower tail would drag the subjective head down and let a
+			// stale header of a stored height pass as new)
+			nStore := 0
+			an.Instrs(ssAppend, func(in ssa.Instruction) {
+				if !isHeadStore(in) {
+					return
+				}
+				nStore++
+				fs := ff.AtInstr(in)
+				okF := fs.Has(atOrAbove) || fs.Has(an.B("errors.Is("+t.Of(headC)+"#1,header.ErrEmptyStore)"))
+				c.Check(okF, "C03.c", "head-cache-only-forward", "the cached head is written only when the store was empty or with a batch at or above it", ssAppend, in, "", fs)
+			})
+			c.Min("C03.c", "writes of the cached head in syncStore.Append", nStore, 2)
 			checkArith(c, "C03.c", []*ssa.Function{ssAppend}, map[string]bool{"index": true, "slice": true, "usub": true}, nil, nil)
 		}
 	}
